@@ -46,11 +46,15 @@ static std::string dump(const ST::string_stream &s) { return vf::strf("%p/%zu/",
 static void build_attempts()
 {
     const std::vector<std::string> bad8 = {"\x80", "ab\xC3", "\xE2\x82", "\xF0\x9F\x98", "\xFF", "a\xC0 ", "\xED\xA0",
-                                           "aaaaaaaaaaaaaaaaaaaa\xC3", "\xC3" "aaaaaaaaaaaaaaaaaaaaaaaa"};
+                                           "aaaaaaaaaaaaaaaaaaaa\xC3", "\xC3" "aaaaaaaaaaaaaaaaaaaaaaaa",
+                                           // the bad unit late in a long text (beyond any internal block a converter might work in)
+                                           std::string(70, 'a') + "\xC3", std::string(300, 'b') + "\xFF" + "tail", std::string(1100, 'c') + "\xE2\x82"};
     const std::vector<std::u16string> bad16 = {u"\xD800", std::u16string(u"A") + (char16_t)0xDC00 + u"A", std::u16string(1, (char16_t)0xD800) + u"A",
-                                               std::u16string(1, (char16_t)0xDBFF), std::u16string(20, u'a') + (char16_t)0xD800};
+                                               std::u16string(1, (char16_t)0xDBFF), std::u16string(20, u'a') + (char16_t)0xD800,
+                                               std::u16string(70, u'a') + (char16_t)0xD800, std::u16string(300, u'\u00e9') + (char16_t)0xDC00 + u"tail"};
     const std::vector<std::u32string> bad32 = {std::u32string(1, (char32_t)0x110000), std::u32string(U"A") + (char32_t)0x110000 + U"B",
-                                               std::u32string(1, (char32_t)0xFFFFFFFFu), std::u32string(20, U'a') + (char32_t)0x110000};
+                                               std::u32string(1, (char32_t)0xFFFFFFFFu), std::u32string(20, U'a') + (char32_t)0x110000,
+                                               std::u32string(70, U'a') + (char32_t)0x110000, std::u32string(300, U'\u20ac') + (char32_t)0x110000 + U"tail"};
     int k = 0;
     for (const std::string &d : bad8) {
         std::string n = vf::strf("utf8#%d:", k++);
@@ -102,6 +106,8 @@ static void build_attempts()
                 TRY(ss << d.c_str()); if (dump(ss) != b4) problem = "the stream changed during a failed insertion");
             ATT(n + vf::strf("stream[%zu] << std::u16string", pre), vf::EX_UNICODE, ST::string_stream ss; ss.append_char('s', pre); std::string b4 = dump(ss);
                 TRY(ss << d); if (dump(ss) != b4) problem = "the stream changed during a failed insertion");
+            ATT(n + vf::strf("stream[%zu] << std::u16string_view", pre), vf::EX_UNICODE, ST::string_stream ss; ss.append_char('s', pre); std::string b4 = dump(ss);
+                TRY(ss << std::u16string_view(d)); if (dump(ss) != b4) problem = "the stream changed during a failed insertion");
         }
     }
     k = 0;
@@ -130,6 +136,16 @@ static void build_attempts()
             if (dump(ss) != b4) problem = "the stream changed during a failed insertion");
         ATT(n + "stream << std::wstring", vf::EX_UNICODE, ST::string_stream ss; ss.append_char('s', 250); std::string b4 = dump(ss); TRY(ss << w);
             if (dump(ss) != b4) problem = "the stream changed during a failed insertion");
+        ATT(n + "stream << std::u32string", vf::EX_UNICODE, ST::string_stream ss; ss.append_char('s', 5); std::string b4 = dump(ss); TRY(ss << d);
+            if (dump(ss) != b4) problem = "the stream changed during a failed insertion");
+        ATT(n + "stream << std::u32string_view", vf::EX_UNICODE, ST::string_stream ss; ss.append_char('s', 5); std::string b4 = dump(ss);
+            TRY(ss << std::u32string_view(d)); if (dump(ss) != b4) problem = "the stream changed during a failed insertion");
+        ATT(n + "stream << std::wstring_view", vf::EX_UNICODE, ST::string_stream ss; ss.append_char('s', 250); std::string b4 = dump(ss);
+            TRY(ss << std::wstring_view(w)); if (dump(ss) != b4) problem = "the stream changed during a failed insertion");
+        ATT(n + "stream << wchar cstr", vf::EX_UNICODE, ST::string_stream ss; ss.append_char('s', 5); std::string b4 = dump(ss); TRY(ss << w.c_str());
+            if (dump(ss) != b4) problem = "the stream changed during a failed insertion");
+        ATT(n + "t = format({}, u32string_view)", vf::EX_UNICODE, TRY(t = ST::format("{}", std::u32string_view(d))));
+        ATT(n + "t = format({}, wchar cstr)", vf::EX_UNICODE, TRY(t = ST::format("x{}", w.c_str())));
     }
     for (uint32_t cp : {0x110000u, 0x7FFFFFFFu, 0xFFFFFFFFu}) {
         std::string n = vf::strf("codepoint %X:", cp);
@@ -151,6 +167,13 @@ static void build_attempts()
     ATT("t += format(\"{}{}\", t)", vf::EX_OUT_OF_RANGE, TRY(t += ST::format("{}{}", t)));
     ATT("t = format(\"{}{\", t, t)", vf::EX_BADFORMAT, TRY(t = ST::format("{}{", t, t)));
     ATT("t = format(nullptr)", vf::EX_INVALID_ARG, TRY(t = ST::format((const char *)nullptr)));
+    // the public numeric formatter objects: a rejected specifier leaves the previously formatted text in place
+    ATT("float_formatter<double>.format(v,'q') after a good one", vf::EX_BADFORMAT, ST::float_formatter<double> ff; ff.format(1.5, 'g');
+        std::string b4(ff.text(), ff.size()); TRY(ff.format(2.25, 'q')); if (std::string(ff.text(), ff.size()) != b4) problem = "the formatter lost its previous text");
+    ATT("float_formatter<float>.format(v,NUL) after a good one", vf::EX_BADFORMAT, ST::float_formatter<float> ff; ff.format(-0.5f, 'e');
+        std::string b4(ff.text(), ff.size()); TRY(ff.format(2.25f, '\0')); if (std::string(ff.text(), ff.size()) != b4) problem = "the formatter lost its previous text");
+    ATT("t = from_double(v,'q')", vf::EX_BADFORMAT, TRY(t = S::from_double(1.5, 'q')));
+    ATT("t = from_float(v,'d')", vf::EX_BADFORMAT, TRY(t = S::from_float(1.5f, 'd')));
     // decoders into an existing buffer
     for (size_t pre : {size_t(0), size_t(5), size_t(40)}) {
         for (const char *bad : {"abc", "zz", "0g", "\xC3\xA9"}) {
